@@ -215,6 +215,17 @@ class DIMSEServiceProvider:
             available within the :attr:`~DIMSEServiceProvider.dimse_timeout`
             period.
         """
+        if block and self.dimse_timeout is None:
+            # No DIMSE timeout: wait for a message for as long as the DUL is
+            #   running, otherwise nothing could end the wait once the
+            #   association has been aborted or the connection closed
+            while True:
+                try:
+                    return self.msg_queue.get(block=True, timeout=0.5)
+                except queue.Empty:
+                    if not self.assoc.dul.is_alive():
+                        return None, None
+
         try:
             return self.msg_queue.get(block=block, timeout=self.dimse_timeout)
         except queue.Empty:
